@@ -22,9 +22,9 @@
 EXTENDS Integers, Sequences, FiniteSets, TLC
 
 CONSTANTS Table,        \* see above
-          Carriers,     \* kept classes after which the enumeration continues on the same connection
+          Carriers,     \* classes (kept, or "any") after which the enumeration continues on the same connection
           Heavy,        \* expensive classes: only as the first input of a phase
-          Probe,        \* what a second connection sends: the genuine handshakes and one request
+          Probe,        \* [phase |-> class]: what a second connection sends: the genuine handshakes and one request
           MaxIn,        \* [phase |-> max number of inputs while staying in that phase]
           MaxConns, ProbeAfter,
           MaxFrameK, SlackK, C,   \* allocation bound: MaxFrameK + SlackK + C * KiB received in the step
@@ -50,7 +50,7 @@ Recv(c) ==
   /\ phase \in {"PreHs", "ProtoHs", "Est"}
   /\ n < MaxIn[phase]
   /\ c \in Heavy => n = 0
-  /\ conns > 1 => c \in Probe
+  /\ conns > 1 => c = Probe[phase]
   /\ \E t \in Rows(c, phase) :
        LET react == t[3]  annK == t[4]  sentK == t[5]
            eff == IF t[6] \in Dev THEN t[7] ELSE "none"
@@ -58,7 +58,7 @@ Recv(c) ==
            \* a length-prefixed reader allocates the announced length iff it passes the limit; processing costs <= C per KiB received
            al == (IF annK <= limitK THEN annK ELSE 0) + (IF eff = "alloc" /\ phase # "PreHs" THEN Bound(sentK) + 1 ELSE C * sentK)
            np == CASE react = "close" -> "Closed"
-                   [] react = "any"   -> "Undet"
+                   [] react = "any"   -> IF c \in Carriers /\ conns = 1 /\ phase = "Est" THEN phase ELSE "Undet"   \* enumeration goes on as if kept
                    [] react = "adv"   -> IF c \in Carriers THEN NextPhase(phase) ELSE "Done"
                    [] react = "keep"  -> IF c \in Carriers /\ conns = 1 THEN phase ELSE "Done"
        IN /\ alive' = (eff # "panic")
@@ -91,5 +91,5 @@ OnlyHandshakesAdvance ==
 TypeOK == /\ phase \in {"PreHs", "ProtoHs", "Est", "Closed", "Undet", "Done"}
           /\ \A t \in Table : t[3] \in {"close", "keep", "adv", "any"} /\ t[7] \in {"none", "panic", "stuck", "alloc"}
                               /\ t[2] \subseteq {"PreHs", "ProtoHs", "Est"}
-          /\ Carriers \subseteq Classes /\ Heavy \subseteq Classes /\ Probe \subseteq Classes
+          /\ Carriers \subseteq Classes /\ Heavy \subseteq Classes /\ \A p \in DOMAIN Probe : Probe[p] \in Classes
 ====
